@@ -51,6 +51,9 @@ type StructCase struct {
 	Chunks  []int  `json:"chunks,omitempty"`
 	EOFData bool   `json:"eof_with_data,omitempty"`
 	FailAt  int    `json:"fail_at"` // read/write fault offset as a per-mille of the encoded length (-1: none)
+	// Reader selects what the consumer reads from in the fault-free modes: "" (the scripted reader) or one of the
+	// standard library's concrete reader types (buffer = *bytes.Buffer, bytesreader = *bytes.Reader, stringsreader).
+	Reader string `json:"reader,omitempty"`
 }
 
 func codecPair(codec string) (rt.Producer, rt.Consumer) {
@@ -178,6 +181,16 @@ func CheckStruct(c StructCase) *kit.Violation {
 		script.FailAt = at
 	}
 	_, stream := script.open()
+	if c.Mode != "readfault" {
+		switch c.Reader {
+		case "buffer":
+			stream = bytes.NewBuffer(append([]byte(nil), enc...))
+		case "bytesreader":
+			stream = bytes.NewReader(enc)
+		case "stringsreader":
+			stream = strings.NewReader(string(enc))
+		}
+	}
 
 	if c.Mode == "generic" || c.Mode == "bignum" {
 		var got interface{}
@@ -283,6 +296,7 @@ func GenStruct(t *rapid.T) StructCase {
 		c.Chunks = append(c.Chunks, rapid.SampledFrom([]int{0, 1, 2, 7, 64, 4096}).Draw(t, "chunk"))
 	}
 	c.EOFData = rapid.Bool().Draw(t, "eofdata")
+	c.Reader = rapid.SampledFrom([]string{"", "", "buffer", "bytesreader", "stringsreader"}).Draw(t, "readerkind")
 	switch c.Mode {
 	case "generic":
 		if c.Codec == "xml" {
@@ -323,6 +337,9 @@ func ClassifyStruct(c StructCase) (bool, []string) {
 	}
 	if c.BadDest != "" {
 		labels = append(labels, "baddest "+c.BadDest)
+	}
+	if c.Reader != "" && c.Mode != "readfault" && c.Mode != "writefault" && c.Mode != "baddest" {
+		labels = append(labels, "reader "+c.Reader)
 	}
 	sort.Strings(labels)
 	// dedupe
